@@ -1,37 +1,47 @@
 import CollectionsC.Proofs.ArrayMem
 import CollectionsC.Proofs.Stack
-/-! Ledger facets (`Led`: `libc` untouched, refusal counted iff `CC_ERR_ALLOC`; `_indep`: dependence
-on the ledger only through its schedule) for the stack adapter: constructor, push, `cc_stack_filter`
-(with its loop of pushes), destructor, and the push/pop/peek/size steps and histories. -/
+/-! Ledger facets for the stack adapter (`Led t m m' k r`: own block counter of triple `t` grew by `k`,
+the other allocator's counters untouched, refusal counted iff `r`; `_indep`: dependence on the ledger
+only through its schedule): constructor, push, `cc_stack_filter` with its loop of pushes, destructor,
+and the push/pop/peek/size steps and histories.  `Stack.Coh`: header and array share one triple. -/
 namespace CC.Stack
 open CC CC.Arr
 open CC.Spec.Seq (SOp Out)
 
-theorem new_led (cap : Nat) (grow : Nat → Nat) (exGe : Nat → Bool) (m : Mem) :
-    Led m (Stack.new cap grow exGe m).2.2 (decide ((Stack.new cap grow exGe m).1 = .errAlloc)) := by
-  have ln := Arr.new_led cap grow exGe m.alloc.2
-  unfold Stack.new
-  cases hal : m.alloc.1
-  · have := Led.alloc m; rw [hal] at this
-    simp only [hal]; simpa using this
-  · have l0 := Led.alloc m; rw [hal] at l0
-    simp only [hal, Bool.not_true, Bool.false_eq_true, if_false]
-    cases hn : (Arr.new cap grow exGe m.alloc.2).2.1 with
-    | none => simp only; exact (l0.trans ln).free
-    | some a =>
-      simp only
-      split
-      · rename_i hok
-        rw [hok] at ln
-        simpa using l0.trans ln
-      · exact (l0.trans ln).free
+theorem ext_v {s t : Stack} (h : s.v = t.v) (ht : s.triple = t.triple) : s = t := by
+  cases s; cases t; simp only at h ht; rw [h, ht]
 
-theorem new_indep (cap : Nat) (grow : Nat → Nat) (exGe : Nat → Bool) (m1 m2 : Mem) (h : m1.sched = m2.sched) :
-    (Stack.new cap grow exGe m1).1 = (Stack.new cap grow exGe m2).1 ∧
-    (Stack.new cap grow exGe m1).2.1.map (·.v) = (Stack.new cap grow exGe m2).2.1.map (·.v) ∧
-    (Stack.new cap grow exGe m1).2.2.sched = (Stack.new cap grow exGe m2).2.2.sched := by
-  obtain ⟨e1, e2⟩ := alloc_congr h
-  obtain ⟨f1, f2, f3⟩ := Arr.new_indep cap grow exGe _ _ e2
+theorem foreign_freeT (t : Triple) (m : Mem) : Foreign t m (m.freeT t) := by
+  cases t with
+  | conf => simp only [Mem.freeT_conf, Foreign]; unfold Mem.free; split <;> exact ⟨rfl, rfl, rfl, rfl⟩
+  | libc => simp only [Mem.freeT, Foreign]; split <;> exact ⟨rfl, rfl, rfl, rfl⟩
+
+theorem new_led (cap : Nat) (grow : Nat → Nat) (exGe : Nat → Bool) (m : Mem) (t : Triple) :
+    Led t m (Stack.new cap grow exGe m t).2.2 (if (Stack.new cap grow exGe m t).1 = .ok then 3 else 0)
+      (decide ((Stack.new cap grow exGe m t).1 = .errAlloc)) := by
+  have ln := Arr.new_led cap grow exGe (m.allocT t).2 t
+  unfold Stack.new
+  cases hal : (m.allocT t).1
+  · simp only [hal]; simpa using Led.allocT_refused m t hal
+  · have l0 := Led.allocT_ok m t hal
+    simp only [hal, Bool.not_true, Bool.false_eq_true, if_false]
+    rcases Arr.new_spec cap grow exGe (m.allocT t).2 t with ⟨n1, n2, _⟩ | ⟨n1, n2, _⟩ | ⟨n1, _, r, n3, _⟩
+    · rw [n2]; simp only
+      rw [n1] at ln ⊢
+      simpa using (l0.trans ln).freeT (k := 0)
+    · rw [n2]; simp only
+      rw [n1] at ln ⊢
+      simpa using (l0.trans ln).freeT (k := 0)
+    · rw [n3]; simp only [n1, if_true]
+      rw [n1] at ln
+      simpa using l0.trans ln
+
+theorem new_indep (cap : Nat) (grow : Nat → Nat) (exGe : Nat → Bool) (m1 m2 : Mem) (t : Triple) (h : m1.sched = m2.sched) :
+    (Stack.new cap grow exGe m1 t).1 = (Stack.new cap grow exGe m2 t).1 ∧
+    (Stack.new cap grow exGe m1 t).2.1 = (Stack.new cap grow exGe m2 t).2.1 ∧
+    (Stack.new cap grow exGe m1 t).2.2.sched = (Stack.new cap grow exGe m2 t).2.2.sched := by
+  obtain ⟨e1, e2⟩ := allocT_congr h t
+  obtain ⟨f1, f2, f3⟩ := Arr.new_indep cap grow exGe _ _ t e2
   unfold Stack.new
   simp only [e1, f1, f2]
   split
@@ -39,51 +49,61 @@ theorem new_indep (cap : Nat) (grow : Nat → Nat) (exGe : Nat → Bool) (m1 m2 
   · split
     · split
       · exact ⟨rfl, rfl, f3⟩
-      · exact ⟨rfl, rfl, by simp only [free_sched]; exact f3⟩
-    · exact ⟨rfl, rfl, by simp only [free_sched]; exact f3⟩
+      · exact ⟨rfl, rfl, by simp only [freeT_sched]; exact f3⟩
+    · exact ⟨rfl, rfl, by simp only [freeT_sched]; exact f3⟩
 
-theorem push_led (s : Stack) (x : Nat) (m : Mem) : Led m (s.push x m).2.2 (decide ((s.push x m).1 = .errAlloc)) :=
-  Arr.add_led s.v x m
+theorem push_led (s : Stack) (x : Nat) (m : Mem) :
+    Led s.v.triple m (s.push x m).2.2 0 (decide ((s.push x m).1 = .errAlloc)) := Arr.add_led s.v x m
 
 theorem push_indep (s : Stack) (x : Nat) (m1 m2 : Mem) (h : m1.sched = m2.sched) :
-    (s.push x m1).1 = (s.push x m2).1 ∧ (s.push x m1).2.1.v = (s.push x m2).2.1.v ∧
-    (s.push x m1).2.2.sched = (s.push x m2).2.2.sched := Arr.add_indep s.v x m1 m2 h
+    (s.push x m1).1 = (s.push x m2).1 ∧ (s.push x m1).2.1 = (s.push x m2).2.1 ∧
+    (s.push x m1).2.2.sched = (s.push x m2).2.2.sched := by
+  obtain ⟨e1, e2, e3⟩ := Arr.add_indep s.v x m1 m2 h
+  exact ⟨e1, by simp only [push]; rw [e2], e3⟩
 
-theorem destroy_led (s : Stack) (m : Mem) : Led m (s.destroy m) false := (Arr.destroy_led s.v m).free
+theorem destroy_foreign (s : Stack) (m : Mem) (hc : s.Coh) : Foreign s.triple m (s.destroy m) := by
+  unfold destroy Arr.destroy
+  unfold Coh at hc
+  rw [hc]
+  exact ((foreign_freeT _ m).trans (foreign_freeT _ _)).trans (foreign_freeT _ _)
+
 theorem destroy_sched (s : Stack) (m : Mem) : (s.destroy m).sched = m.sched := by
-  unfold destroy; rw [free_sched, Arr.destroy_sched]
+  unfold destroy; rw [freeT_sched, Arr.destroy_sched]
 
 /-- the loop of `cc_stack_filter` -/
-theorem filterLoop_led (p : Nat → Bool) (src : Arr) (hsrc : src.Inv) : ∀ n (it : ArrIter) (dst : Stack) (log : List Nat) (m : Mem),
-    Led m (filterLoop p src n it dst log m).2.2.2 (decide ((filterLoop p src n it dst log m).1 = .errAlloc)) := by
+theorem filterLoop_led (p : Nat → Bool) (src : Arr) : ∀ n (it : ArrIter) (dst : Stack) (log : List Nat) (m : Mem),
+    Led dst.v.triple m (filterLoop p src n it dst log m).2.2.2 0 (decide ((filterLoop p src n it dst log m).1 = .errAlloc)) := by
   intro n
   induction n with
-  | zero => intro it dst log m; exact Led.rfl' m
+  | zero => intro it dst log m; exact Led.rfl' _ m
   | succ n ih =>
     intro it dst log m
+    have hm : Led dst.v.triple m (src.iterNext it m).2.2.2 0 false := by
+      unfold Arr.iterNext; split
+      · exact Led.rfl' _ m
+      · exact (Led.rfl' _ m).check _
     simp only [filterLoop]
-    by_cases hend : it.index ≥ src.size
-    · have hnx : src.iterNext it m = (.iterEnd, none, it, m) := by simp [Arr.iterNext, hend]
-      simp only [hnx, if_true]; exact Led.rfl' m
-    · have h6 : decide (it.index < src.buf.length) = true := by have := hsrc.size_le_len; simp; omega
-      have hnx : src.iterNext it m = (.ok, some (src.buf.get it.index), { index := it.index + 1, lastRemoved := false }, m) := by
-        simp [Arr.iterNext, hend, h6]
-      have hne : ¬ (Stat.ok = Stat.iterEnd) := by decide
-      simp only [hnx, hne, if_false, Option.getD_some]
-      split
-      · have lp := push_led dst (src.buf.get it.index) m
+    split
+    · simpa using hm
+    · split
+      · have lp := push_led dst ((src.iterNext it m).2.1.getD 0) (src.iterNext it m).2.2.2
+        have ht := add_triple dst.v ((src.iterNext it m).2.1.getD 0) (src.iterNext it m).2.2.2
         split
-        · exact lp
+        · exact hm.trans0 lp
         · rename_i hok
-          have hok' : (dst.push (src.buf.get it.index) m).1 = .ok := by simpa using hok
+          have hok' : (dst.push ((src.iterNext it m).2.1.getD 0) (src.iterNext it m).2.2.2).1 = .ok := by simpa using hok
           rw [hok'] at lp
-          exact Led.trans (by simpa using lp) (ih _ _ _ _)
-      · exact ih _ _ _ _
+          have := ih (src.iterNext it m).2.2.1 (dst.push ((src.iterNext it m).2.1.getD 0) (src.iterNext it m).2.2.2).2.1
+            (log ++ [(src.iterNext it m).2.1.getD 0]) (dst.push ((src.iterNext it m).2.1.getD 0) (src.iterNext it m).2.2.2).2.2
+          simp only [push] at this lp ⊢
+          rw [ht] at this
+          exact (hm.trans0 (by simpa using lp)).trans0 this
+      · exact hm.trans0 (ih _ _ _ _)
 
 theorem filterLoop_indep (p : Nat → Bool) (src : Arr) : ∀ n (it : ArrIter) (dst : Stack) (log : List Nat) (m1 m2 : Mem),
     m1.sched = m2.sched →
     (filterLoop p src n it dst log m1).1 = (filterLoop p src n it dst log m2).1 ∧
-    (filterLoop p src n it dst log m1).2.1.v = (filterLoop p src n it dst log m2).2.1.v ∧
+    (filterLoop p src n it dst log m1).2.1 = (filterLoop p src n it dst log m2).2.1 ∧
     (filterLoop p src n it dst log m1).2.2.1 = (filterLoop p src n it dst log m2).2.2.1 ∧
     (filterLoop p src n it dst log m1).2.2.2.sched = (filterLoop p src n it dst log m2).2.2.2.sched := by
   intro n
@@ -101,137 +121,56 @@ theorem filterLoop_indep (p : Nat → Bool) (src : Arr) : ∀ n (it : ArrIter) (
     · exact ⟨rfl, rfl, rfl, hs⟩
     · split
       · obtain ⟨q1, q2, q3⟩ := push_indep dst ((src.iterNext it m2).2.1.getD 0) _ _ hs
-        have q2' : (dst.push ((src.iterNext it m2).2.1.getD 0) (src.iterNext it m1).2.2.2).2.1 =
-            (dst.push ((src.iterNext it m2).2.1.getD 0) (src.iterNext it m2).2.2.2).2.1 := by
-          cases hx : (dst.push ((src.iterNext it m2).2.1.getD 0) (src.iterNext it m1).2.2.2).2.1
-          cases hy : (dst.push ((src.iterNext it m2).2.1.getD 0) (src.iterNext it m2).2.2.2).2.1
-          rw [hx, hy] at q2; simp only at q2; rw [q2]
-        simp only [q1, q2']
+        simp only [q1, q2]
         split
         · exact ⟨rfl, rfl, rfl, q3⟩
         · exact ih _ _ _ _ _ q3
       · exact ih _ _ _ _ _ hs
 
-/-- `cc_stack_filter`: `libc` untouched, one refusal counted iff the call reports `CC_ERR_ALLOC` -/
-theorem filter_led (p : Nat → Bool) (s : Stack) (dgrow : Nat → Nat) (dexGe : Nat → Bool) (m : Mem) (hinv : s.Inv) :
-    Led m (s.filter p dgrow dexGe m).2.2.2 (decide ((s.filter p dgrow dexGe m).1 = .errAlloc)) := by
-  have ln := new_led Gen.ARRAY_DEFAULT_CAPACITY dgrow dexGe m
+/-- `cc_stack_filter`: three blocks of the source's triple with the result, none without; the other
+allocator untouched; one refusal counted iff the call reports `CC_ERR_ALLOC` -/
+theorem filter_led (p : Nat → Bool) (s : Stack) (dgrow : Nat → Nat) (dexGe : Nat → Bool) (m : Mem) :
+    Led s.triple m (s.filter p dgrow dexGe m).2.2.2 (if (s.filter p dgrow dexGe m).1 = .ok then 3 else 0)
+      (decide ((s.filter p dgrow dexGe m).1 = .errAlloc)) := by
+  have ln := new_led Gen.ARRAY_DEFAULT_CAPACITY dgrow dexGe m s.triple
   unfold filter
   by_cases h0 : s.size = 0
-  · simp only [h0, if_true]; exact Led.rfl' m
+  · simp only [h0, if_true]; simpa using Led.rfl' s.triple m
   · simp only [h0, if_false]
-    cases hn : (Stack.new Gen.ARRAY_DEFAULT_CAPACITY dgrow dexGe m).2.1 with
-    | none => simp only; exact ln
+    cases hn : (Stack.new Gen.ARRAY_DEFAULT_CAPACITY dgrow dexGe m s.triple).2.1 with
+    | none =>
+      simp only
+      rcases Stack.new_spec Gen.ARRAY_DEFAULT_CAPACITY dgrow dexGe m s.triple with ⟨n1, _⟩ | ⟨_, f, n2, _⟩
+      · have hne : (Stack.new Gen.ARRAY_DEFAULT_CAPACITY dgrow dexGe m s.triple).1 ≠ .ok := by
+          rcases n1 with n1 | n1 <;> rw [n1] <;> decide
+        simpa [hne] using ln
+      · rw [hn] at n2; simp at n2
     | some f =>
       simp only
-      by_cases hok : (Stack.new Gen.ARRAY_DEFAULT_CAPACITY dgrow dexGe m).1 = .ok
-      · have ln' : Led m (Stack.new Gen.ARRAY_DEFAULT_CAPACITY dgrow dexGe m).2.2 false := by
+      obtain ⟨ft, fvt⟩ := new_triple _ _ _ _ _ f hn
+      by_cases hok : (Stack.new Gen.ARRAY_DEFAULT_CAPACITY dgrow dexGe m s.triple).1 = .ok
+      · have ln' : Led s.triple m (Stack.new Gen.ARRAY_DEFAULT_CAPACITY dgrow dexGe m s.triple).2.2 3 false := by
           rw [hok] at ln; simpa using ln
-        have ll := filterLoop_led p s.v hinv (s.v.size + 1) {} f [] (Stack.new Gen.ARRAY_DEFAULT_CAPACITY dgrow dexGe m).2.2
+        have ll := filterLoop_led p s.v (s.v.size + 1) {} f [] (Stack.new Gen.ARRAY_DEFAULT_CAPACITY dgrow dexGe m s.triple).2.2
+        rw [fvt] at ll
         have l2 := ln'.trans ll
+        obtain ⟨_, o2, o3⟩ := filterLoop_own p s.v (s.v.size + 1) {} f [] (Stack.new Gen.ARRAY_DEFAULT_CAPACITY dgrow dexGe m s.triple).2.2
         simp only [hok, bne_self_eq_false, Bool.false_eq_true, if_false]
-        by_cases hok2 : (filterLoop p s.v (s.v.size + 1) {} f [] (Stack.new Gen.ARRAY_DEFAULT_CAPACITY dgrow dexGe m).2.2).1 = .ok
+        by_cases hok2 : (filterLoop p s.v (s.v.size + 1) {} f [] (Stack.new Gen.ARRAY_DEFAULT_CAPACITY dgrow dexGe m s.triple).2.2).1 = .ok
         · simp only [hok2, bne_self_eq_false, Bool.false_eq_true, if_false]
           rw [hok2] at l2; simpa using l2
-        · have hb : ((filterLoop p s.v (s.v.size + 1) {} f [] (Stack.new Gen.ARRAY_DEFAULT_CAPACITY dgrow dexGe m).2.2).1 != .ok) = true := by
+        · have hb : ((filterLoop p s.v (s.v.size + 1) {} f [] (Stack.new Gen.ARRAY_DEFAULT_CAPACITY dgrow dexGe m s.triple).2.2).1 != .ok) = true := by
             simpa using hok2
-          simp only [hb, if_true]
-          obtain ⟨d1, d2⟩ := destroy_led
-            (filterLoop p s.v (s.v.size + 1) {} f [] (Stack.new Gen.ARRAY_DEFAULT_CAPACITY dgrow dexGe m).2.2).2.1
-            (filterLoop p s.v (s.v.size + 1) {} f [] (Stack.new Gen.ARRAY_DEFAULT_CAPACITY dgrow dexGe m).2.2).2.2.2
-          exact ⟨by rw [d1]; exact l2.1, by rw [d2]; simpa using l2.2⟩
-      · have hb : ((Stack.new Gen.ARRAY_DEFAULT_CAPACITY dgrow dexGe m).1 != .ok) = true := by simpa using hok
-        simp only [hb, if_true]; exact ln
-
-/-! ### push/pop/peek/size steps and histories -/
-
-theorem step_led (s : Stack) (op : SOp) (m : Mem) (hinv : s.Inv) :
-    Led m (s.step op m).2.2 (decide ((s.step op m).1.st = some .errAlloc)) := by
-  cases op with
-  | push x => have := push_led s x m; simpa [step] using this
-  | pop =>
-    obtain ⟨r1, _, _, _, _, r6, _⟩ := Arr.removeLast_spec s.v m hinv
-    have : (s.v.removeLast m).1 ≠ .errAlloc := by rw [r1]; unfold Spec.Seq.removeLast; split <;> simp
-    simp only [step, pop, r6]
-    simp [this]; exact Led.rfl' m
-  | peek =>
-    obtain ⟨r1, _, r3, _⟩ := Arr.getLast_spec s.v m hinv
-    have : (s.v.getLast m).1 ≠ .errAlloc := by rw [r1]; unfold Spec.Seq.getLast; split <;> simp
-    simp only [step, peek, r3]
-    simp [this]; exact Led.rfl' m
-  | size => simp only [step]; exact Led.rfl' m
-
-theorem step_indep (s : Stack) (op : SOp) (m1 m2 : Mem) (hinv : s.Inv) (h : m1.sched = m2.sched) :
-    (s.step op m1).1 = (s.step op m2).1 ∧ (s.step op m1).2.1.v = (s.step op m2).2.1.v ∧
-    (s.step op m1).2.2.sched = (s.step op m2).2.2.sched := by
-  cases op with
-  | push x => obtain ⟨e1, e2, e3⟩ := push_indep s x m1 m2 h; simp only [step, e1]; exact ⟨by triv, e2, e3⟩
-  | pop =>
-    obtain ⟨p1, p2, p3⟩ := pure_removeAt s.v (Spec.Seq.wdec s.v.size) m1 m2
-    have q1 := (Arr.removeLast_spec s.v m1 hinv).2.2.2.2.2.1
-    have q2 := (Arr.removeLast_spec s.v m2 hinv).2.2.2.2.2.1
-    simp only [step, pop]
-    exact ⟨by show (_ : Out) = _; simp only [Arr.removeLast, p1, p2], p3, by rw [q1, q2]; exact h⟩
-  | peek =>
-    obtain ⟨p1, p2⟩ := pure_getLast s.v m1 m2
-    have q1 := (Arr.getLast_spec s.v m1 hinv).2.2.1
-    have q2 := (Arr.getLast_spec s.v m2 hinv).2.2.1
-    simp only [step, peek, p1, p2]; exact ⟨by triv, by triv, by rw [q1, q2]; exact h⟩
-  | size => simp only [step]; exact ⟨by triv, by triv, h⟩
-
-theorem ext_v {s t : Stack} (h : s.v = t.v) : s = t := by cases s; cases t; simp only at h; rw [h]
-
-theorem step_inv (s : Stack) (op : SOp) (m : Mem) (hinv : s.Inv) (hlive : 0 < m.live) :
-    (s.step op m).2.1.Inv ∧ (s.step op m).2.2.live = m.live := by
-  cases op with
-  | push x =>
-    obtain ⟨sp, sl, _⟩ := Arr.add_spec s.v x m hinv hlive
-    refine ⟨?_, sl⟩
-    rcases sp with ⟨_, _, g⟩ | ⟨_, hsame⟩
-    · exact g.inv hinv
-    · simp only [step, push, Stack.Inv]; rw [hsame]; exact hinv
-  | pop =>
-    obtain ⟨_, _, _, r4, r5, r6, _⟩ := Arr.removeLast_spec s.v m hinv
-    exact ⟨r4.inv hinv r5, by simp only [step, pop, r6]⟩
-  | peek => exact ⟨hinv, by simp only [step, peek, (Arr.getLast_spec s.v m hinv).2.2.1]⟩
-  | size => exact ⟨hinv, rfl⟩
-
-theorem run_led (ops : List SOp) : ∀ (s : Stack) (m : Mem), s.Inv → 0 < m.live →
-    (s.run ops m).2.2.libc = m.libc ∧
-    (s.run ops m).2.2.nrefused = m.nrefused + ((s.run ops m).1.filter (fun o => decide (o.st = some .errAlloc))).length := by
-  induction ops with
-  | nil => intro s m _ _; exact ⟨rfl, rfl⟩
-  | cons op ops ih =>
-    intro s m hinv hlive
-    obtain ⟨l1, l2⟩ := step_led s op m hinv
-    have hinv' := step_inv s op m hinv hlive
-    obtain ⟨i1, i2⟩ := ih (s.step op m).2.1 (s.step op m).2.2 hinv'.1 (by omega)
-    simp only [Stack.run, List.filter_cons]
-    refine ⟨by rw [i1, l1], ?_⟩
-    rw [i2, l2]
-    split <;> simp <;> omega
-
-theorem run_indep (ops : List SOp) : ∀ (s : Stack) (m1 m2 : Mem), s.Inv → 0 < m1.live → 0 < m2.live →
-    m1.sched = m2.sched →
-    (s.run ops m1).1 = (s.run ops m2).1 ∧ (s.run ops m1).2.1 = (s.run ops m2).2.1 ∧
-    (s.run ops m1).2.2.sched = (s.run ops m2).2.2.sched := by
-  induction ops with
-  | nil => intro s m1 m2 _ _ _ h; exact ⟨rfl, rfl, h⟩
-  | cons op ops ih =>
-    intro s m1 m2 hinv hl1 hl2 h
-    obtain ⟨e1, e2, e3⟩ := step_indep s op m1 m2 hinv h
-    have e2' := ext_v e2
-    have i1 := step_inv s op m1 hinv hl1
-    have i2 := step_inv s op m2 hinv hl2
-    simp only [Stack.run]
-    rw [e1]
-    have := ih (s.step op m1).2.1 (s.step op m1).2.2 (s.step op m2).2.2 i1.1 (by omega) (by omega) e3
-    rw [e2'] at this ⊢
-    exact ⟨by rw [this.1], this.2.1, this.2.2⟩
-
-theorem opt_eq_of_map_v {o1 o2 : Option Stack} (h : o1.map (·.v) = o2.map (·.v)) : o1 = o2 := by
-  cases o1 <;> cases o2 <;> simp at h ⊢
-  exact ext_v h
+          simp only [hb, if_true, hok2, if_false]
+          unfold destroy Arr.destroy
+          rw [o2, o3, fvt, ft]
+          have l3 : Led s.triple m (filterLoop p s.v (s.v.size + 1) {} f [] (Stack.new Gen.ARRAY_DEFAULT_CAPACITY dgrow dexGe m s.triple).2.2).2.2.2
+              (0 + 1 + 1 + 1) (decide ((filterLoop p s.v (s.v.size + 1) {} f [] (Stack.new Gen.ARRAY_DEFAULT_CAPACITY dgrow dexGe m s.triple).2.2).1 = .errAlloc)) := by
+            simpa using l2
+          exact l3.freeT.freeT.freeT
+      · have hb : ((Stack.new Gen.ARRAY_DEFAULT_CAPACITY dgrow dexGe m s.triple).1 != .ok) = true := by simpa using hok
+        simp only [hb, if_true]
+        simpa [hok] using ln
 
 /-- `cc_stack_filter` depends on the ledger only through its schedule -/
 theorem filter_indep (p : Nat → Bool) (s : Stack) (dgrow : Nat → Nat) (dexGe : Nat → Bool) (m1 m2 : Mem)
@@ -240,23 +179,108 @@ theorem filter_indep (p : Nat → Bool) (s : Stack) (dgrow : Nat → Nat) (dexGe
     (s.filter p dgrow dexGe m1).2.1 = (s.filter p dgrow dexGe m2).2.1 ∧
     (s.filter p dgrow dexGe m1).2.2.1 = (s.filter p dgrow dexGe m2).2.2.1 ∧
     (s.filter p dgrow dexGe m1).2.2.2.sched = (s.filter p dgrow dexGe m2).2.2.2.sched := by
-  obtain ⟨e1, e2, e3⟩ := new_indep Gen.ARRAY_DEFAULT_CAPACITY dgrow dexGe m1 m2 h
-  have e2' := opt_eq_of_map_v e2
+  obtain ⟨e1, e2, e3⟩ := new_indep Gen.ARRAY_DEFAULT_CAPACITY dgrow dexGe m1 m2 s.triple h
   unfold filter
   by_cases h0 : s.size = 0
   · simp only [h0, if_true]; exact ⟨by triv, by triv, by triv, h⟩
-  · simp only [h0, if_false, e1, e2']
-    cases hn : (Stack.new Gen.ARRAY_DEFAULT_CAPACITY dgrow dexGe m2).2.1 with
+  · simp only [h0, if_false, e1, e2]
+    cases hn : (Stack.new Gen.ARRAY_DEFAULT_CAPACITY dgrow dexGe m2 s.triple).2.1 with
     | none => exact ⟨rfl, rfl, rfl, e3⟩
     | some f =>
       simp only
       split
       · exact ⟨rfl, rfl, rfl, e3⟩
       · obtain ⟨l1, l2, l3, l4⟩ := filterLoop_indep p s.v (s.v.size + 1) {} f [] _ _ e3
-        have l2' := ext_v l2
-        simp only [l1, l2', l3]
+        simp only [l1, l2, l3]
         split
         · exact ⟨rfl, rfl, rfl, by rw [destroy_sched, destroy_sched]; exact l4⟩
         · exact ⟨rfl, rfl, rfl, l4⟩
+
+/-! ### push/pop/peek/size steps and histories -/
+
+theorem step_led (s : Stack) (op : SOp) (m : Mem) (hinv : s.Inv) :
+    Led s.v.triple m (s.step op m).2.2 0 (decide ((s.step op m).1.st = some .errAlloc)) := by
+  cases op with
+  | push x => have := push_led s x m; simpa [step] using this
+  | pop =>
+    obtain ⟨r1, _, _, _, _, r6, _⟩ := Arr.removeLast_spec s.v m hinv
+    have : (s.v.removeLast m).1 ≠ .errAlloc := by rw [r1]; unfold Spec.Seq.removeLast; split <;> simp
+    simp only [step, pop, r6]
+    simp [this]; exact Led.rfl' _ m
+  | peek =>
+    obtain ⟨r1, _, r3, _⟩ := Arr.getLast_spec s.v m hinv
+    have : (s.v.getLast m).1 ≠ .errAlloc := by rw [r1]; unfold Spec.Seq.getLast; split <;> simp
+    simp only [step, peek, r3]
+    simp [this]; exact Led.rfl' _ m
+  | size => simp only [step]; exact Led.rfl' _ m
+
+theorem step_indep (s : Stack) (op : SOp) (m1 m2 : Mem) (hinv : s.Inv) (h : m1.sched = m2.sched) :
+    (s.step op m1).1 = (s.step op m2).1 ∧ (s.step op m1).2.1 = (s.step op m2).2.1 ∧
+    (s.step op m1).2.2.sched = (s.step op m2).2.2.sched := by
+  cases op with
+  | push x => obtain ⟨e1, e2, e3⟩ := push_indep s x m1 m2 h; simp only [step, e1]; exact ⟨by triv, e2, e3⟩
+  | pop =>
+    obtain ⟨p1, p2, p3⟩ := pure_removeAt s.v (Spec.Seq.wdec s.v.size) m1 m2
+    have q1 := (Arr.removeLast_spec s.v m1 hinv).2.2.2.2.2.1
+    have q2 := (Arr.removeLast_spec s.v m2 hinv).2.2.2.2.2.1
+    simp only [step, pop]
+    refine ⟨by show (_ : Out) = _; simp only [Arr.removeLast, p1, p2], ?_, by rw [q1, q2]; exact h⟩
+    simp only [Arr.removeLast]; rw [p3]
+  | peek =>
+    obtain ⟨p1, p2⟩ := pure_getLast s.v m1 m2
+    have q1 := (Arr.getLast_spec s.v m1 hinv).2.2.1
+    have q2 := (Arr.getLast_spec s.v m2 hinv).2.2.1
+    simp only [step, peek, p1, p2]; exact ⟨by triv, by triv, by rw [q1, q2]; exact h⟩
+  | size => simp only [step]; exact ⟨by triv, by triv, h⟩
+
+/-- a step keeps the invariant and both triples -/
+theorem step_inv (s : Stack) (op : SOp) (m : Mem) (hinv : s.Inv) :
+    (s.step op m).2.1.Inv ∧ (s.step op m).2.1.v.triple = s.v.triple ∧ (s.step op m).2.1.triple = s.triple := by
+  cases op with
+  | push x =>
+    obtain ⟨sp, _, _⟩ := Arr.add_spec s.v x m hinv
+    refine ⟨?_, add_triple s.v x m, rfl⟩
+    rcases sp with ⟨_, _, g⟩ | ⟨_, hsame⟩
+    · exact g.inv hinv
+    · simp only [step, push, Stack.Inv]; rw [hsame]; exact hinv
+  | pop =>
+    obtain ⟨_, _, _, r4, r5, _⟩ := Arr.removeLast_spec s.v m hinv
+    refine ⟨r4.inv hinv r5, ?_, rfl⟩
+    simp only [step, pop, Arr.removeLast, Arr.removeAt, Arr.closeGap]; split <;> rfl
+  | peek => exact ⟨hinv, rfl, rfl⟩
+  | size => exact ⟨hinv, rfl, rfl⟩
+
+theorem run_led (ops : List SOp) : ∀ (s : Stack) (m : Mem), s.Inv →
+    own s.v.triple (s.run ops m).2.2 = own s.v.triple m ∧ Foreign s.v.triple m (s.run ops m).2.2 ∧
+    (s.run ops m).2.2.nrefused = m.nrefused + ((s.run ops m).1.filter (fun o => decide (o.st = some .errAlloc))).length ∧
+    (s.run ops m).2.1.v.triple = s.v.triple ∧ (s.run ops m).2.1.triple = s.triple := by
+  induction ops with
+  | nil => intro s m _; exact ⟨rfl, Foreign.rfl' _ m, rfl, rfl, rfl⟩
+  | cons op ops ih =>
+    intro s m hinv
+    obtain ⟨l1, l2, l3, _⟩ := step_led s op m hinv
+    obtain ⟨hi, ht1, ht2⟩ := step_inv s op m hinv
+    obtain ⟨i1, i2, i3, i4, i5⟩ := ih (s.step op m).2.1 (s.step op m).2.2 hi
+    rw [ht1] at i1 i2 i4
+    rw [ht2] at i5
+    simp only [Stack.run, List.filter_cons]
+    refine ⟨by rw [i1, l1]; rfl, l2.trans i2, ?_, i4, i5⟩
+    rw [i3, l3]
+    split <;> simp <;> omega
+
+theorem run_indep (ops : List SOp) : ∀ (s : Stack) (m1 m2 : Mem), s.Inv → m1.sched = m2.sched →
+    (s.run ops m1).1 = (s.run ops m2).1 ∧ (s.run ops m1).2.1 = (s.run ops m2).2.1 ∧
+    (s.run ops m1).2.2.sched = (s.run ops m2).2.2.sched := by
+  induction ops with
+  | nil => intro s m1 m2 _ h; exact ⟨rfl, rfl, h⟩
+  | cons op ops ih =>
+    intro s m1 m2 hinv h
+    obtain ⟨e1, e2, e3⟩ := step_indep s op m1 m2 hinv h
+    have i1 := step_inv s op m1 hinv
+    simp only [Stack.run]
+    rw [e1]
+    have := ih (s.step op m1).2.1 (s.step op m1).2.2 (s.step op m2).2.2 i1.1 e3
+    rw [e2] at this ⊢
+    exact ⟨by rw [this.1], this.2.1, this.2.2⟩
 
 end CC.Stack
